@@ -706,6 +706,14 @@ def rule_r6(prog, res) -> None:
         raise AnalysisError(f"C01.R6: only {n} CorrFunc slots traced, minimum 7")
 
 
+def rule_r7(prog, res) -> None:
+    """the binned sample's redshift lies inside the bin: closed-side rule at the tree-building site (= C10.R1)"""
+    from . import c10
+    from .common import shared_rule
+
+    shared_rule(res, c10.rule_r1, "C10", "C10.R1", "C01.R7")
+
+
 RULES = [
     ("C01.R1", rule_r1, QUICK),
     ("C01.R2", rule_r2, QUICK),
@@ -713,4 +721,5 @@ RULES = [
     ("C01.R4", rule_r4, QUICK),
     ("C01.R5", rule_r5, QUICK),
     ("C01.R6", rule_r6, QUICK),
+    ("C01.R7", rule_r7, QUICK),
 ]
